@@ -18,6 +18,8 @@ mod c03;
 mod c17;
 mod c18;
 mod c08;
+mod c02;
+mod c01;
 
 fn main() {
     let argv: Vec<String> = std::env::args().collect();
@@ -44,6 +46,9 @@ fn main() {
         "c17" => c17::run(&a),
         "c18" => c18::run(&a),
         "c08" => c08::run(&a),
+        "c02sov" => c02::run_sov(&a),
+        "c02hostile" => c02::run_hostile(&a),
+        "c01" => c01::run(&a),
         x => { eprintln!("unknown subcommand {x}"); std::process::exit(2); }
     }
 }
